@@ -1,7 +1,183 @@
 import ConfModel.Driver.Common
+import ConfModel.Model.WireChecks
+import ConfModel.Spec.WireChecks
 namespace ConfModel.Driver.C13
-open Lean ConfModel.Driver
+open Lean ConfModel.Driver ConfModel.WireChecks ConfModel.WireChecksSpec
+open ConfModel.ServerTimeout (Bytes)
 
-def handle : Handler := fun op _inp _impl => bad ("C13: unknown op " ++ op)
+def EsFb.cls : EsFb → String
+  | .missingColon => "es:missing-colon" | .invalidName => "es:invalid-name"
+  | .nonLowerKey => "es:non-lower-key" | .invalidValue => "es:invalid-value"
+  | .obsFold => "es:obs-fold" | .extraBlankAtEnd => "es:extra-blank"
+  | .blankLines => "es:blank-lines" | .lfOnly => "es:lf-only" | .noFinalCRLF => "es:no-final-crlf"
+
+def allEs : List EsFb := [.missingColon, .invalidName, .nonLowerKey, .invalidValue, .obsFold,
+  .extraBlankAtEnd, .blankLines, .lfOnly, .noFinalCRLF]
+
+def StFb.cls : StFb → String
+  | .multiStatus => "st:multi-status" | .noStatus => "st:no-status" | .badStatus => "st:bad-status"
+  | .statusRange => "st:status-range" | .multiMessage => "st:multi-message"
+  | .msg .hexExpected => "st:msg-hex" | .msg .unescaped => "st:msg-unescaped"
+  | .msg .incomplete => "st:msg-incomplete" | .msgWithOK => "st:msg-with-ok"
+  | .multiDetails => "st:multi-details" | .detailsBadBase64 => "st:details-base64"
+  | .detailsPadded => "st:details-padded" | .detailsUnparseable => "st:details-unparseable"
+  | .detailsCodeMismatch => "st:details-code" | .detailsWithOK => "st:details-with-ok"
+  | .detailsMsgMismatch => "st:details-msg"
+
+def allSt : List StFb := [.multiStatus, .noStatus, .badStatus, .statusRange, .multiMessage,
+  .msg .hexExpected, .msg .unescaped, .msg .incomplete, .msgWithOK, .multiDetails, .detailsBadBase64,
+  .detailsPadded, .detailsUnparseable, .detailsCodeMismatch, .detailsWithOK, .detailsMsgMismatch]
+
+/-- impl class strings back to the enum; `none` for an unknown class -/
+def esOf (s : String) : Option EsFb := allEs.find? (fun f => EsFb.cls f == s)
+def stOf (s : String) : Option StFb := allSt.find? (fun f => StFb.cls f == s)
+
+def bytesLt : Bytes → Bytes → Bool
+  | [], [] => false
+  | [], _ :: _ => true
+  | _ :: _, [] => false
+  | a :: as, b :: bs' => a.toNat < b.toNat || (a.toNat == b.toNat && bytesLt as bs')
+
+def insertH (x : Bytes × List Bytes) : Hdrs → Hdrs
+  | [] => [x]
+  | y :: ys => if bytesLt x.1 y.1 then x :: y :: ys else y :: insertH x ys
+
+def sortH (h : Hdrs) : Hdrs := h.foldl (fun acc x => insertH x acc) []
+
+def hdrsOf (j : Json) : Hdrs :=
+  (arr j).map (fun e => (unhex (str (field e "k")), (strList (field e "v")).map unhex))
+
+def hdrsJson (h : Hdrs) : Json :=
+  toJson (h.map fun (k, vs) => Json.mkObj [("k", hex k), ("v", toJson (vs.map hex))])
+
+/-- the oracle for base64 + Status unmarshalling supplied by the harness -/
+def decOf (j : Json) : Bytes → DetailsDec :=
+  if isNull j then fun _ => .invalid else
+  let value := unhex (str (field j "value"))
+  let kind := str (field j "kind")
+  let res : DetailsDec :=
+    if kind == "invalid" then .invalid
+    else .decoded (kind == "padded")
+      (if bool (field j "parsed") then
+        some (int (field j "code"), unhex (str (field j "msg")), nat (field j "details") > 0) else none)
+  fun v => if v == value then res else .invalid
+
+structure Examined where
+  fb1 : List String
+  hdrs : Hdrs
+  fb2 : List String
+  dec : Bytes → DetailsDec
+
+def examinedOf (impl : Json) : Examined :=
+  { fb1 := strList (field impl "fb1"), hdrs := hdrsOf (field impl "headers"),
+    fb2 := strList (field impl "fb2"), dec := decOf (field impl "oracle") }
+
+/-- agreement of the model with the implementation on one block; the model's result -/
+def judgeBlock (block : Bytes) (e : Examined) : Bool × Json × List EsFb × List StFb :=
+  let (mFb1, mH, unk) := examineGRPCEndStream block
+  let mFb2 := checkGRPCStatus e.dec mH
+  let drop (l : List String) := if unk then l.filter (· != "es:non-lower-key") else l
+  let agree := drop (mFb1.map EsFb.cls) == drop e.fb1 && sortH mH == e.hdrs && mFb2.map StFb.cls == e.fb2
+  (agree, Json.mkObj [("fb1", toJson (mFb1.map EsFb.cls)), ("headers", hdrsJson (sortH mH)),
+    ("fb2", toJson (mFb2.map StFb.cls))], e.fb1.filterMap esOf, e.fb2.filterMap stOf)
+
+def unknownClasses (e : Examined) : List String :=
+  (e.fb1.filter (fun s => (esOf s).isNone)) ++ (e.fb2.filter (fun s => (stOf s).isNone))
+
+def handle : Handler := fun op inp impl =>
+  if !(isNull (field impl "panic")) then
+    { agree := false, holds := false, why := "panic on arbitrary input: " ++ str (field impl "panic") } else
+  match op with
+  | "percent" =>
+    let msg := unhex (str (field inp "msg"))
+    let enc := unhex (str (field impl "enc"))
+    let fb := strList (field impl "fb")
+    let mEnc := percentEncode msg
+    let esc := boolList (field impl "escapes")
+    -- the property: the encoder's output is accepted by the validator, decodes to the message
+    -- and is printable ASCII
+    let printable := enc.all (fun b => 0x20 ≤ b.toNat && b.toNat ≤ 0x7E)
+    let holds := fb.isEmpty && printable && encodingOK enc && percentDecode enc == some msg
+    { agree := enc == mEnc && esc == msg.map shouldEscape &&
+        (fb.isEmpty == ((validateMessage mEnc 0).isEmpty && percentDecode mEnc == some msg)),
+      holds := holds, nontrivial := msg.any shouldEscape, model := toJson (hex mEnc),
+      why := if holds then "" else s!"own encoding {hex enc} of {hex msg}: feedback {fb}, printable {printable}, decodes back {percentDecode enc == some msg}" }
+  | "status" =>
+    let h := hdrsOf (field inp "headers")
+    let dec := decOf (field impl "oracle")
+    let fb := strList (field impl "fb")
+    let m := checkGRPCStatus dec h
+    let known := fb.filterMap stOf
+    let holds := known.length == fb.length && statusHolds dec h known
+    { agree := m.map StFb.cls == fb, holds := holds, nontrivial := !fb.isEmpty,
+      model := toJson (m.map StFb.cls),
+      why := if holds then "" else s!"status trailers well-formed={statusOK dec h}, must flag {reprStr (mustFlagStatus dec h)}, feedback {fb}",
+      cls := if statusOK dec h then "well-formed" else "malformed" }
+  | "grpcweb" =>
+    let block := unhex (str (field inp "block"))
+    let e := examinedOf impl
+    let (agree, model, fb1, fb2) := judgeBlock block e
+    let unknown := unknownClasses e
+    let holds := unknown.isEmpty && blockHolds block fb1 && statusHolds e.dec e.hdrs fb2
+    { agree := agree, holds := holds, nontrivial := !(e.fb1.isEmpty && e.fb2.isEmpty), model := model,
+      why := if holds then "" else
+        s!"block well-formed={blockOK block} must flag {reprStr (mustFlag block)} got {e.fb1}; status well-formed={statusOK e.dec e.hdrs} must flag {reprStr (mustFlagStatus e.dec e.hdrs)} got {e.fb2} {unknown}",
+      cls := if blockOK block then "well-formed" else "malformed" }
+  | "own" =>
+    let code := nat (field inp "code")
+    let msg := unhex (str (field inp "msg"))
+    let trailers := hdrsOf (field inp "trailers")
+    let nDetails := (arr (field inp "details")).length
+    let block := unhex (str (field impl "block"))
+    let detailsBin := if isNull (field impl "detailsBin") then none else some (unhex (str (field impl "detailsBin")))
+    let e := examinedOf impl
+    let mBlock := grpcWebStatusEndStream code msg detailsBin trailers
+    let (agree, model, _, _) := judgeBlock block e
+    let renderAgree := mBlock == block || !trailers.all (fun (n, _) => isASCII n)
+    let hyp := trailersOK trailers && (1 ≤ code && code ≤ 16)
+    let clean := e.fb1.isEmpty && e.fb2.isEmpty
+    let (holds, why) : Bool × String :=
+      if !hyp || clean then (true, "")
+      else if !noEdgeSpace msg && nDetails > 0 && e.fb1.isEmpty && e.fb2 == ["st:details-msg"] then
+        (false, "F16: own gRPC-Web end-stream for a message with leading/trailing space: grpc-message is trimmed, then reported to disagree with grpc-status-details-bin")
+      else (false, s!"feedback on the reference server's own end-stream message: {e.fb1} {e.fb2}")
+    { agree := agree && renderAgree && (detailsBin.isSome == (nDetails > 0)), holds := holds, nontrivial := hyp,
+      model := Json.mkObj [("block", hex mBlock), ("examined", model)], why := why,
+      cls := if !hyp then "hypothesis-violated" else if noEdgeSpace msg then "plain" else "edge-space" }
+  | "cerr" | "cend" =>
+    let kind := str (field inp "kind")
+    let fb := strList (field impl "fb")
+    let other := fb.filter (·.startsWith "other:")
+    let (holds, why) : Bool × String :=
+      if !other.isEmpty then (true, "")
+      else if kind == "own" then
+        (fb.isEmpty, s!"feedback on a well-formed document written by the repository's own server: {fb}")
+      else if kind.startsWith "mut:" then
+        (!fb.isEmpty, s!"injected malformation {kind} not reported")
+      else (true, "")
+    -- no Lean model of the JSON examiners (implementation half only): agreement is limited to
+    -- the classifier knowing every message
+    { agree := other.isEmpty, holds := holds, nontrivial := kind != "random", model := Json.null,
+      why := if holds then (if other.isEmpty then "" else s!"unclassified message {other}") else why,
+      cls := if kind.startsWith "mut:" then (if fb.contains (kind.drop 4).toString then "mut-exact-class" else "mut-other-class") else kind }
+  | "serve" =>
+    let fb := strList (field impl "fb")
+    let msg := unhex (str (field inp "msg"))
+    let examined := str (field impl "examined")
+    let (holds, why) : Bool × String :=
+      if fb.isEmpty && bool (field impl "ok") then (true, "")
+      else if !noEdgeSpace msg && (examined == "grpc-web-trailers") && fb == ["st:details-msg"] then
+        (false, "F16: reference server's gRPC-Web response for a message with leading/trailing space: grpc-message is trimmed, then reported to disagree with grpc-status-details-bin")
+      else (false, s!"feedback on the reference server's own {examined} response: {fb}")
+    { agree := true, holds := holds, nontrivial := true, model := Json.null, why := why, cls := examined }
+  | "wire" =>
+    let ct := str (field inp "ct")
+    let fb := strList (field impl "fb")
+    let want := httpTrailersFeedback ct (nat (field inp "trailers"))
+    let got := fb.contains "wire:http-trailers"
+    { agree := got == want && !fb.any (·.startsWith "other:"), holds := got == want, nontrivial := want,
+      model := toJson want,
+      why := if got == want then "" else s!"HTTP trailers outside gRPC: content-type {ct}, flagged={got}, expected={want}" }
+  | _ => bad ("C13: unknown op " ++ op)
 
 end ConfModel.Driver.C13
